@@ -19,10 +19,11 @@ import (
 
 type vAct struct {
 	C    int      `json:"c"`
-	A    string   `json:"a"` // auth | req | tcp | udp | close
+	A    string   `json:"a"` // auth | req | tcp | udp | burst | close | revoke | grant
 	Req  vReqSpec `json:"req"`
 	Ft   int64    `json:"ft"`
 	Addr string   `json:"addr"`
+	Cred string   `json:"cred"` // revoke / grant: the credential whose standing with the authenticator changes now
 	// burst: these auth requests are sent concurrently on the same connection
 	Burst []vReqSpec `json:"burst"`
 }
@@ -33,6 +34,8 @@ type vHist struct {
 	NConn int    `json:"nconn"`
 	Par   bool   `json:"par"`
 	Acts  []vAct `json:"acts"`
+	// Pol: credentials whose verdict depends on the presenting connection / the attempt number / tx / time
+	Pol map[string]*vPol `json:"pol"`
 }
 
 type vHistOut struct {
@@ -68,6 +71,10 @@ func (cl *vClient) perform(a vAct) {
 		wg.Wait()
 	case "close":
 		cl.doClose()
+	case "revoke":
+		cl.e.setRevoked(a.Cred, true)
+	case "grant":
+		cl.e.setRevoked(a.Cred, false)
 	}
 }
 
@@ -77,7 +84,7 @@ func vRunHistory(h vHist) (out vHistOut) {
 			out.Err = fmt.Sprint("harness panic: ", r)
 		}
 	}()
-	e, err := vStartServer(h.Cfg)
+	e, err := vStartServer(h.Cfg, h.Pol)
 	if err != nil {
 		out.Err = "server: " + err.Error()
 		return
@@ -123,7 +130,9 @@ func vRunHistory(h vHist) (out vHistOut) {
 
 // vVerdictC01 is the property's own predicate on the boundary log (no model involved).
 func vVerdictC01(h vHist, log []vEntry) (bool, string) {
-	accepted := map[int]bool{}  // connection passed auth (authenticator said yes on it)
+	// accepted[c]: the authenticator was called FOR CONNECTION c (remote address of c) and that call returned an
+	// accepting verdict.  A verdict obtained on another connection - same credential string or not - never counts.
+	accepted := map[int]bool{}
 	acceptedAt := map[int]int{} // seq of the accepting verdict
 	closedC := map[int]bool{}
 	onT := map[string]int{}
@@ -146,6 +155,9 @@ func vVerdictC01(h vHist, log []vEntry) (bool, string) {
 				return false, fmt.Sprintf("seq %d: authenticator re-evaluated on already authenticated connection %d", x.S, x.C)
 			}
 		case "authret":
+			if !inCall[x.C] {
+				return false, fmt.Sprintf("seq %d: harness inconsistency: verdict without a call on connection %d", x.S, x.C)
+			}
 			inCall[x.C] = false
 			if x.OK {
 				accepted[x.C] = true
@@ -154,7 +166,7 @@ func vVerdictC01(h vHist, log []vEntry) (bool, string) {
 			}
 		case "outtcp", "outudp", "checkudp", "relay", "udpwrite", "evtcp", "evudp", "dgramreply":
 			if !accepted[x.C] {
-				return false, fmt.Sprintf("seq %d: %s %q for connection %d before any accepted authentication on that connection", x.S, x.K, x.Addr, x.C)
+				return false, fmt.Sprintf("seq %d: %s %q for connection %d before any accepted authentication on that connection%s", x.S, x.K, x.Addr, x.C, vElsewhere(log, x, accepted))
 			}
 		case "stream":
 			pendingStream[strconv.Itoa(x.C)+"/"+x.Addr] = accepted[x.C] && x.Ft == protocol.FrameTypeTCPRequest && !closedC[x.C]
@@ -167,7 +179,7 @@ func vVerdictC01(h vHist, log []vEntry) (bool, string) {
 			}
 		case "resp":
 			if x.Status == protocol.StatusAuthOK && !accepted[x.C] {
-				return false, fmt.Sprintf("seq %d: status 233 on connection %d without an accepting verdict on it", x.S, x.C)
+				return false, fmt.Sprintf("seq %d: status 233 on connection %d although no Authenticate call made for that connection has returned an accepting verdict%s", x.S, x.C, vElsewhere(log, x, accepted))
 			}
 		case "online":
 			if x.OK {
@@ -176,7 +188,7 @@ func vVerdictC01(h vHist, log []vEntry) (bool, string) {
 				onF[x.ID]++
 			}
 			if !accepted[x.C] || idOf[x.C] != x.ID {
-				return false, fmt.Sprintf("seq %d: online state %v for id %q that was not accepted on connection %d", x.S, x.OK, x.ID, x.C)
+				return false, fmt.Sprintf("seq %d: online state %v for id %q that was not accepted on connection %d%s", x.S, x.OK, x.ID, x.C, vElsewhere(log, x, accepted))
 			}
 			if !x.OK && !closedC[x.C] {
 				return false, fmt.Sprintf("seq %d: offline logged for %q before the connection closed", x.S, x.ID)
@@ -184,7 +196,7 @@ func vVerdictC01(h vHist, log []vEntry) (bool, string) {
 		case "connect":
 			conn[x.ID]++
 			if !accepted[x.C] || idOf[x.C] != x.ID {
-				return false, fmt.Sprintf("seq %d: connect event for id %q not accepted on connection %d", x.S, x.ID, x.C)
+				return false, fmt.Sprintf("seq %d: connect event for id %q on connection %d, for which no Authenticate call has returned that id with an accepting verdict%s", x.S, x.ID, x.C, vElsewhere(log, x, accepted))
 			}
 		case "disconnect":
 			if !accepted[x.C] || idOf[x.C] != x.ID || !closedC[x.C] {
@@ -226,6 +238,17 @@ func vVerdictC01(h vHist, log []vEntry) (bool, string) {
 		}
 	}
 	return true, ""
+}
+
+// vElsewhere names, for the diagnosis only, the other connections that had been accepted when entry x was logged.
+func vElsewhere(log []vEntry, x vEntry, accepted map[int]bool) string {
+	s := ""
+	for c := 0; c < 16; c++ {
+		if accepted[c] && c != x.C {
+			s += fmt.Sprintf(" (connection %d had been accepted)", c)
+		}
+	}
+	return s
 }
 
 func TestVerifC01(t *testing.T) {
